@@ -12,13 +12,13 @@ RULE = ("every shipped once-infectable model under both dynamics on stars, cliqu
         "infected non-seed, seeds without hitting time, untouched never-infected nodes). non-trivial = run with >= 2 infections; distinct = spec")
 PARTIAL = ["the link from runs of the executable model to the abstract infection log (C08.Valid) — that the infector's recorded time is strictly "
            "smaller under synchronous dynamics — is argued from C03/C05/C07 and checked by the oracle, not yet one theorem",
-           "skeletonise() is exercised by the oracle only; SIvR is not modelled yet"]
+           "skeletonise() is exercised by the oracle only; SIvR is replayed and checked by the oracle, infect_records is stated for the SIR-style action script"]
 
 
 def _jobs(ctx):
     q = ctx.quick()
     n = 40 if q else 500
-    return sc.corpus_job(ctx) + [(f'models{k}', ['models', n]) for k in range(6 if q else 10)] + [(f'comp{k}', ['compete8', n]) for k in range(5 if q else 10)] + [(f'rr{k}', ['rerun_fix', n]) for k in range(2 if q else 4)] + [('forced', ['forced', n])]
+    return sc.corpus_job(ctx) + [(f'models{k}', ['models', n]) for k in range(6 if q else 10)] + [(f'comp{k}', ['compete8', n]) for k in range(5 if q else 10)] + [(f'rr{k}', ['rerun_fix', n]) for k in range(2 if q else 4)] + [('forced', ['forced', n])] + [(f'vacc{k}', ['vacc', n]) for k in range(2 if q else 4)]
 
 
 def _nt(e):
@@ -30,7 +30,7 @@ def tie(ctx):
 
 
 def search(ctx, hint):
-    return sc.search_with(ctx, hint, [(f's{k}', ['compete8', 200]) for k in range(6)] + [('r', ['rerun_fix', 200]), ('f', ['forced', 200])])
+    return sc.search_with(ctx, hint, [(f's{k}', ['compete8', 200]) for k in range(6)] + [('r', ['rerun_fix', 200]), ('f', ['forced', 200]), ('v', ['vacc', 300])])
 
 
 def replay(ctx, rep):
